@@ -10,7 +10,7 @@ MANIFEST = {
              "from the Go source on every run): encode-then-decode returns payload, flag and consistent header lengths for EVERY payload of at most "
              "131071 bytes, with the nil compressor and with any compressor satisfying the stated contract, also when followed by arbitrary bytes; "
              "longer payloads are refused; the emitted bytes equal the layout transcribed from native_protocol_v5.spec section 2 (little-endian 3/5-byte "
-             "header, 17-bit lengths, flag bit, CRC-24, payload as transmitted, seeded CRC-32, fallback with uncompressed-length field 0). The model is "
+             "header, 17-bit lengths, flag bit, textbook CRC-24 of the header bytes, payload as transmitted, seeded textbook CRC-32, fallback with uncompressed-length field 0; the code's checksum register machines are proved equal to the textbook forms). The model is "
              "compared with the compiled code on every run (checksums, encoded bytes, decoded segments, damaged inputs) and the property's predicate "
              "and an independent reference layout are evaluated directly on the implementation."),
     "technique": "Rocq proof over hand model with regenerated constants + model/code correspondence (vm_compute inside coqc)",
